@@ -200,6 +200,9 @@ func mutantsFor(prop string) []Mutant {
 		{"C14", "the captures of the previous copy of a loop body stay declared", []Edit{{gen, "\t\tfor _, name := range copyDeclared {\n\t\t\tdelete(state.variables, name)\n\t\t}\n", ""}}},
 		{"C02", "a back-reference reads the environment only", []Edit{{se, "\tvalue, found := es.LOOKUPVARIABLE(name)\n", "\tvalue, found := es.environment.Get(name)\n"}}},
 		{"C11", "bool < orders the right operand by its number", []Edit{{ex, "lhs_state.currentValue.getNumber() < ProcessValueBoolean{rhs_state.currentValue.getBoolean()}.getNumber()", "lhs_state.currentValue.getNumber() < rhs_state.currentValue.getNumber()"}}},
+		{"C02", "an unbound back-reference matches the empty text", []Edit{{se, "\tvalue, found := es.LOOKUPVARIABLE(name)\n\tif !found {\n\t\tes.BACKTRACK()\n", "\tvalue, found := es.LOOKUPVARIABLE(name)\n\tif !found {\n\t\tes.MATCH(\"\", false, false)\n"}}},
+		{"C14", "an unbound back-reference matches the empty text", []Edit{{se, "\tvalue, found := es.LOOKUPVARIABLE(name)\n\tif !found {\n\t\tes.BACKTRACK()\n", "\tvalue, found := es.LOOKUPVARIABLE(name)\n\tif !found {\n\t\tes.MATCH(\"\", false, false)\n"}}},
+		{"C15", "the end of the input where a command may start is an error", []Edit{{ps, "\tcase EOF:\n\t\treturn nil, token_index, nil\n", "\tcase EOF:\n\t\treturn nil, token_index, NewParseError(tokens[token_index], \"Unexpected end of input\")\n"}}},
 		{"C08", "expression scan does not stop on the EOF token", []Edit{{ps, "tokenType == BREAK || tokenType == CONTINUE || tokenType == EOF", "tokenType == BREAK || tokenType == CONTINUE"}}},
 	}
 	var out []Mutant
